@@ -396,8 +396,9 @@ class MonitoredFocusList(MonitoredList[_T], typing.Generic[_T]):
             focus = self._adjust_focus_on_contents_modified(y)
         else:
             focus = self._adjust_focus_on_contents_modified(slice(y, y + 1 or None))
-        super().__delitem__(y)
+        list.__delitem__(self, y)
         self.focus = focus
+        self._modified()
 
     @typing.overload
     def __setitem__(self, i: int, y: _T) -> None: ...
@@ -438,8 +439,9 @@ class MonitoredFocusList(MonitoredList[_T], typing.Generic[_T]):
             focus = self._adjust_focus_on_contents_modified(i, y)
         else:
             focus = self._adjust_focus_on_contents_modified(slice(i, i + 1 or None), [y])
-        super().__setitem__(i, y)
+        list.__setitem__(self, i, y)
         self.focus = focus
+        self._modified()
 
     def __imul__(self, n: int):
         """
@@ -460,8 +462,9 @@ class MonitoredFocusList(MonitoredList[_T], typing.Generic[_T]):
             focus = self._adjust_focus_on_contents_modified(slice(len(self), len(self)), list(self) * (n - 1))
         else:  # all contents are being removed
             focus = self._adjust_focus_on_contents_modified(slice(0, len(self)))
-        rval = super().__imul__(n)
+        rval = list.__imul__(self, n)
         self.focus = focus
+        self._modified()
         return rval
 
     def append(self, item: _T) -> None:
@@ -474,8 +477,9 @@ class MonitoredFocusList(MonitoredList[_T], typing.Generic[_T]):
         range(3, 3, 1) <- [6]
         """
         focus = self._adjust_focus_on_contents_modified(slice(len(self), len(self)), [item])
-        super().append(item)
+        list.append(self, item)
         self.focus = focus
+        self._modified()
 
     def extend(self, items: Collection[_T]) -> None:
         """
@@ -487,8 +491,9 @@ class MonitoredFocusList(MonitoredList[_T], typing.Generic[_T]):
         range(3, 3, 1) <- [6, 7, 8]
         """
         focus = self._adjust_focus_on_contents_modified(slice(len(self), len(self)), items)
-        super().extend(items)
+        list.extend(self, items)
         self.focus = focus
+        self._modified()
 
     def insert(self, index: int, item: _T) -> None:
         """
@@ -501,8 +506,9 @@ class MonitoredFocusList(MonitoredList[_T], typing.Generic[_T]):
         MonitoredFocusList([-2, 0, 1, -3, 2, -1, 3], focus=4)
         """
         focus = self._adjust_focus_on_contents_modified(slice(index, index), [item])
-        super().insert(index, item)
+        list.insert(self, index, item)
         self.focus = focus
+        self._modified()
 
     def pop(self, index: int = -1) -> _T:
         """
@@ -521,8 +527,9 @@ class MonitoredFocusList(MonitoredList[_T], typing.Generic[_T]):
         MonitoredFocusList([0, 1], focus=1)
         """
         focus = self._adjust_focus_on_contents_modified(slice(index, index + 1 or None))
-        rval = super().pop(index)
+        rval = list.pop(self, index)
         self.focus = focus
+        self._modified()
         return rval
 
     def remove(self, value: _T) -> None:
@@ -537,8 +544,9 @@ class MonitoredFocusList(MonitoredList[_T], typing.Generic[_T]):
         """
         index = self.index(value)
         focus = self._adjust_focus_on_contents_modified(slice(index, index + 1 or None))
-        super().remove(value)
+        list.remove(self, value)
         self.focus = focus
+        self._modified()
 
     def reverse(self) -> None:
         """
@@ -546,8 +554,9 @@ class MonitoredFocusList(MonitoredList[_T], typing.Generic[_T]):
         >>> ml.reverse(); ml
         MonitoredFocusList([4, 3, 2, 1, 0], focus=3)
         """
-        rval = super().reverse()
+        rval = list.reverse(self)
         self.focus = max(0, len(self) - self._focus - 1)
+        self._modified()
         return rval
 
     def sort(self, **kwargs) -> None:
@@ -559,16 +568,18 @@ class MonitoredFocusList(MonitoredList[_T], typing.Generic[_T]):
         if not self:
             return None
         value = self[self._focus]
-        rval = super().sort(**kwargs)
+        rval = list.sort(self, **kwargs)
         self.focus = self.index(value)
+        self._modified()
         return rval
 
     if hasattr(list, "clear"):
 
         def clear(self) -> None:
             focus = self._adjust_focus_on_contents_modified(slice(0, 0))
-            super().clear()
+            list.clear(self)
             self.focus = focus
+            self._modified()
 
 
 def _test():
